@@ -7,8 +7,8 @@ from vlib.props import c13
 PLUGINS = ["contains", "unique", "set", "union", "intersect", "filter", "takewhile", "all", "any"]
 OPS = {"contains", "unique", "set", "unionl", "intersectl", "unionm", "intersectm", "filter", "takewhile", "all", "any"}
 
-RULE = ("22 element types (==-comparable and not: basics incl. +0/-0 floats, named basics, comparable struct, pointers to structs "
-        "incl. recursive and imported, slices, struct with pointers) and 6 key types x the boundary-biased list pool of C13 (nil, "
+RULE = ("27 element types (==-comparable and not: basics incl. +0/-0 floats, named basics, comparable struct, pointers to structs "
+        "incl. recursive and imported, slices, struct with pointers, named floats with -0/+0 inside non-comparable elements ([]NF, *NF, *SNF), slice elements that are views of one backing array) and 9 key types x the boundary-biased list pool of C13 (nil, "
         "empty, duplicates fresh and aliased, Equal-but-not-identical variants, nil elements, random lists); contains with present / "
         "absent / Equal-but-not-identical / single-mutation items; unique and set on every list; union / intersect on 81 + random "
         "ordered list pairs and on all ordered pairs of key sets (nil, empty, singletons, both insertion orders, +0 vs -0 keys, the "
